@@ -48,10 +48,35 @@ def strip_comments(src):
     return ''.join(out)
 
 
-def hygiene():
-    """No Admitted/admit/Axiom/Parameter/... anywhere in the development (outside comments and strings)."""
+def dep_closure(targets):
+    """The .v files the given .vo targets depend on (from coq_makefile's .Makefile.d); None if unknown."""
+    path = os.path.join(COQ, '.Makefile.d')
+    if not os.path.exists(path):
+        return None
+    deps = {}
+    for line in open(path):
+        m = re.match(r'^(\S+)\.vo \S+\.glob [^:]*:\s*(.*)$', line)
+        if m:
+            deps[m.group(1) + '.vo'] = [d for d in m.group(2).split() if d.endswith('.vo')]
+    seen, todo = set(), [t for t in targets]
+    while todo:
+        t = todo.pop()
+        if t in seen:
+            continue
+        if t not in deps:
+            return None
+        seen.add(t)
+        todo.extend(deps[t])
+    return {t[:-1] for t in seen}
+
+
+def hygiene(only=None):
+    """No Admitted/admit/Axiom/Parameter/... in the development (outside comments and strings).
+    `only`: restrict to these .v files (relative to coq/); None = every file under coq/."""
     bad = []
     for path in sorted(glob.glob(os.path.join(COQ, '**', '*.v'), recursive=True)):
+        if only is not None and os.path.relpath(path, COQ) not in only:
+            continue
         src = strip_comments(open(path).read())
         src = re.sub(r'"[^"]*"', '""', src)
         for n, line in enumerate(src.split('\n'), 1):
@@ -135,8 +160,10 @@ def is_allowed(axiom):
     return axiom in ALLOWED_AXIOMS or axiom.split('.')[-1] in ALLOWED_AXIOMS or axiom.startswith(PRIMITIVE_PREFIXES)
 
 
-def build(prop_id, workdir, targets=None):
-    """Returns a dict describing the state of the proof obligations of one property."""
+def build(prop_id, workdir, targets=None, kernels=None):
+    """Returns a dict describing the state of the proof obligations of one property.
+    `kernels`: the property's KERNELS list ('Gen/<File>.v: name'); translator failures in other
+    Gen files belong to other properties and are not this property's obligations."""
     t0 = time.time()
     os.makedirs(workdir, exist_ok=True)
     info = {'broken': [], 'theorems': [], 'assumptions': {}, 'log': ''}
@@ -145,7 +172,10 @@ def build(prop_id, workdir, targets=None):
     try:
         ok, failures, tlog = run_translator()
         info['translator_ok'] = ok
-        for fl in failures:
+        mine = {k.split(':')[0].strip().split('/')[-1] for k in (kernels or [])}
+        own_fail = [fl for fl in failures if kernels is None or fl.split()[1] in mine]
+        info['translator_ok'] = not own_fail and (ok or bool(failures))
+        for fl in own_fail:
             info['broken'].append(f'translator: {fl}')
         if not ok and not failures:
             info['broken'].append('translator: crashed: ' + tlog[-500:])
@@ -165,7 +195,8 @@ def build(prop_id, workdir, targets=None):
     finally:
         fcntl.flock(lock, fcntl.LOCK_UN)
         lock.close()
-    bad = hygiene()
+    tg = targets or [f'Properties/{prop_id}.vo', f'Run/{prop_id}_run.vo']
+    bad = hygiene(dep_closure(tg))
     for b in bad:
         info['broken'].append('hygiene: ' + b)
     names = theorem_names(prop_id)
